@@ -41,7 +41,9 @@ pub fn query_get_previous_price(
     let prices = prices_response.unwrap();
     let latest_price = prices.last().unwrap();
 
-    if num_round_back > latest_price.round_id {
+    // rounds are numbered from 1 (the stored vector starts with an empty placeholder round 0):
+    // with N rounds submitted, at most N - 1 rounds back exist
+    if num_round_back >= latest_price.round_id {
         return Err(StdError::generic_err("Not enough history"));
     }
 
